@@ -66,6 +66,7 @@ class Array:
         self.store = {}                    # bytes -> value key
         self.jbytes = {}                   # digest -> bytes of junk values seen on disk
         self.jlen = {}
+        self.store[b"\0" * BS] = 'Z'
         self.ncmd = 0
         self.urandom = os.path.join(self.root, "urandom")
         self.make_dirs()
